@@ -26,6 +26,10 @@ C19_SenderResolves == Last.e = "send" => SendOK(Last)
 \* C18: the poll transport delivers notifications only to the exact id; it can do so only if the sender
 \* tells it that a message is a notification
 C18_TransportToldTheKind == (Last.e = "send" /\ Last.handed /\ ~ Last.dead) => Last.msgType = Last.kind
+\* ... and to the addressed id only if it is told the id under which the listener registered
+C18_TransportToldTheListener ==
+  (Last.e = "send" /\ Last.handed /\ ~ Last.dead /\ Last.plugin = "poll") =>
+     Last.dataNorm = Resolve(TableByName(Last.table), StoredBy(Last.recv)).data
 \* C20: what is dispatched names exactly the task / carries exactly the promise that was supplied, also
 \* when the transport sends it after the sender has gone on with the next message
 C20_DispatchedAsSupplied ==
